@@ -55,6 +55,13 @@ type Args struct {
 	Replay  string
 	Seed    int64
 	Part    string
+	// Budget: wall-clock seconds after which the worker stops taking new cases (0: none). A run that hits it
+	// reports exhaustive=false and how far it got; it is not a violation.
+	Budget   int
+	started  time.Time
+	cut      bool
+	cutAt    int64
+	mineTick int
 }
 
 func ParseArgs(args []string) *Args {
@@ -67,6 +74,7 @@ func ParseArgs(args []string) *Args {
 	fs.StringVar(&a.Replay, "replay", "", "replay file")
 	fs.Int64Var(&a.Seed, "seed", 0, "seed (permutes order only)")
 	fs.StringVar(&a.Part, "part", "", "sub-part of the check")
+	fs.IntVar(&a.Budget, "budget", 0, "wall-clock budget in seconds (0: none)")
 	fs.Parse(args)
 	return a
 }
@@ -75,10 +83,43 @@ func (a *Args) Thorough() bool { return a.Tier == "thorough" }
 
 // Mine reports whether case index i belongs to this shard.
 func (a *Args) Mine(i int64) bool {
+	if a.Budget > 0 {
+		if a.cut {
+			return false
+		}
+		a.mineTick++
+		if a.started.IsZero() {
+			a.started = time.Now()
+		}
+		if a.mineTick&255 == 0 {
+			if time.Since(a.started) > time.Duration(a.Budget)*time.Second {
+				a.cut, a.cutAt = true, i
+				return false
+			}
+		}
+	}
 	if a.NShards <= 1 {
 		return true
 	}
 	return int((i+a.Seed)%int64(a.NShards)) == a.Shard
+}
+
+// Expired reports (and latches) that the time budget is used up; at is recorded as the position reached.
+func (a *Args) Expired(at int64) bool {
+	if a.Budget <= 0 {
+		return false
+	}
+	if a.cut {
+		return true
+	}
+	if a.started.IsZero() {
+		a.started = time.Now()
+	}
+	if time.Since(a.started) > time.Duration(a.Budget)*time.Second {
+		a.cut, a.cutAt = true, at
+		return true
+	}
+	return false
 }
 
 func NewResult(prop string, a *Args) *Result {
@@ -108,6 +149,11 @@ func (r *Result) Note(f string, a ...any) { r.Notes = append(r.Notes, fmt.Sprint
 
 func (r *Result) Write(a *Args) {
 	r.Wall = time.Since(r.start).Seconds()
+	if a.cut {
+		r.Exhaustive = false
+		r.Bounds["stopped_by_time_budget_at_case_index"] = a.cutAt
+		r.Bounds["time_budget_s"] = a.Budget
+	}
 	if r.Samples == nil {
 		r.Samples = []any{}
 	}
